@@ -70,25 +70,27 @@ fn props() -> impl Strategy<Value = Vec<(u8, c14::V)>> {
     proptest::collection::vec((0u8..2, tame_value()), 0..=2)
 }
 
+/// The setup only ever uses labels A, B and edge type R: label C and type S are first used by the concurrent
+/// threads, so their interning (name -> id) can race.
 fn setup_op() -> impl Strategy<Value = Op> {
     prop_oneof![
-        5 => (proptest::collection::vec(0u8..3, 0..=2), props()).prop_map(|(labels, props)| Op::CreateNode { labels, props }),
-        4 => (live(), live(), 0u8..2).prop_map(|(src, dst, ty)| Op::CreateEdge { src, dst, ty, mode: EdgeMode::Normal, props: Vec::new() }),
-        1 => (live(), 0u8..3).prop_map(|(t, label)| Op::AddLabel { t, label }),
+        5 => (proptest::collection::vec(0u8..2, 0..=2), props()).prop_map(|(labels, props)| Op::CreateNode { labels, props }),
+        4 => (live(), live()).prop_map(|(src, dst)| Op::CreateEdge { src, dst, ty: 0, mode: EdgeMode::Normal, props: Vec::new() }),
+        1 => (live(), 0u8..2).prop_map(|(t, label)| Op::AddLabel { t, label }),
     ]
 }
 
 /// Concurrent ops: all aimed at the (few) entities that exist after the setup, so that threads collide.
 fn thread_op() -> impl Strategy<Value = Op> {
     prop_oneof![
-        3 => (proptest::collection::vec(0u8..3, 0..=2), props()).prop_map(|(labels, props)| Op::CreateNode { labels, props }),
+        3 => (prop_oneof![2 => proptest::collection::vec(0u8..3, 0..=2), 1 => Just(vec![2u8])], props()).prop_map(|(labels, props)| Op::CreateNode { labels, props }),
         3 => live().prop_map(|t| Op::DeleteNode { t }),
         // DETACH DELETE is two store calls (delete_node_edges, delete_node), not one operation: not generated here
         4 => (live(), live(), 0u8..2).prop_map(|(src, dst, ty)| Op::CreateEdge { src, dst, ty, mode: EdgeMode::Normal, props: Vec::new() }),
         3 => live().prop_map(|t| Op::DeleteEdge { t }),
         4 => (live(), 0u8..2, tame_value()).prop_map(|(t, key, val)| Op::SetNodeProp { t, key, val }),
         2 => (live(), 0u8..2).prop_map(|(t, key)| Op::RemoveNodeProp { t, key }),
-        4 => (live(), 0u8..3).prop_map(|(t, label)| Op::AddLabel { t, label }),
+        4 => (live(), prop_oneof![1 => 0u8..3, 1 => Just(2u8)]).prop_map(|(t, label)| Op::AddLabel { t, label }),
         3 => (live(), 0u8..3).prop_map(|(t, label)| Op::RemoveLabel { t, label }),
     ]
 }
@@ -661,7 +663,8 @@ fn run_free(c: &FreeCase) -> CaseResult {
         db.create_property_index("x");
     }
     // shared starting nodes
-    let shared: Vec<NodeId> = (0..3).map(|i| db.create_node_with_props(&[LABELS[i % 3]], [("x", Value::Int64(i as i64))])).collect();
+    // shared nodes carry labels A / B only: label C is first used by the racing threads
+    let shared: Vec<NodeId> = (0..3).map(|i| db.create_node_with_props(&[LABELS[i % 2]], [("x", Value::Int64(i as i64))])).collect();
     let n = (c.threads as usize).min(c.programs.len()).max(2);
     let barrier = Arc::new(Barrier::new(n));
     let mut handles = Vec::new();
